@@ -34,6 +34,7 @@ func (p *c02) ID() string { return "C02" }
 
 // hand-written templates for the situations the property names
 var c02Hand = []string{
+	"{{ 1 % 0.5 }}", "{{ 7 % '0.25' }}", "{{ x % (1/3) }}", "{{ 7 % (-1/3) }}", "{{ 7 % '' }}", "{{ 7 % null }}", "{{ 7 // 0.5 }}", "{{ 7 % (0/0) }}", "{{ 7 % (1/0) }}", "{{ (1/0) % 3 }}", "{{ 1e300 % 7 }}", "{{ 7 % 1e300 }}", "{{ (-9223372036854775808) % (-1) }}",
 	"{{ 1 % 0 }}", "{{ 1 // 0 }}", "{{ 1 / 0 }}", "{{ x % z }}", "{{ 5..1 }}", "{{ (0/0)..3 }}", "{{ 1..2.5 }}", "{{ (-2)..2 }}", "{{ 3..3 }}", "{{ 'a'..'e' }}",
 	"{% for i in arr if i > 1 %}{{ i }}{% endfor %}", "{% for i in arr if false %}{{ i }}{% else %}none{% endfor %}",
 	"{{ m[1] }}", "{{ m[null] }}", "{{ m[true] }}", "{{ {(s):1}[1] }}", "{{ {'a':1}[0] }}", "{{ mi['x'] }}", "{{ mi[1.5] }}", "{{ arr['x'] }}", "{{ arr[null] }}",
